@@ -54,7 +54,7 @@ def write_replay(pid, name, header: dict, code: str | None):
     return p
 
 
-def finish(pid, tier, seed, t0, results, lemma_results, standin_results, known):
+def finish(pid, tier, seed, t0, results, lemma_results, standin_results, known, static_results=()):
     violations = []
     known_hits = []
     undecided = []
@@ -122,6 +122,29 @@ def finish(pid, tier, seed, t0, results, lemma_results, standin_results, known):
         discharged += lemma_ok
         backends["z3-5.1 (induction)"] = lemma_ok
 
+    static_out = []
+    for sr in static_results:
+        if sr["error"]:
+            faults.append(f"static check {sr['name']}: {sr['error'].splitlines()[0]}")
+            continue
+        if not sr["rows"]:
+            faults.append(f"static check {sr['name']}: zero rows (vacuity guard)")
+        okc = 0
+        for row in sr["rows"]:
+            total += 1
+            if row["ok"]:
+                discharged += 1
+                okc += 1
+                backends["static-evaluation"] = backends.get("static-evaluation", 0) + 1
+            else:
+                total -= 1
+                k = match_known(known, pid, ob_id=row["id"])
+                if k:
+                    known_hits.append((k, row))
+                else:
+                    violations.append(("static", sr, row))
+        static_out.append(dict(name=sr["name"], rows=len(sr["rows"]), ok=okc, sample=sr["rows"][:2]))
+
     bounded_out = []
     for s in standin_results:
         if s.get("error"):
@@ -177,6 +200,14 @@ def finish(pid, tier, seed, t0, results, lemma_results, standin_results, known):
             tail = "" if code else " no-failing-input-found"
             print(f"VIOLATION property={pid} replay={p} obligation={o['id']}{tail}")
             vcount += 1
+        elif kind == "static":
+            if o["id"] in reported:
+                continue
+            reported.add(o["id"])
+            hdr = dict(property=pid, failed_obligation=o["id"], detail=o.get("detail"), backend="static-evaluation of the class/literal tables read from /repo")
+            p = write_replay(pid, o["id"], hdr, o.get("replay_code"))
+            print(f"VIOLATION property={pid} replay={p} obligation={o['id']}" + ("" if o.get("replay_code") else " no-failing-input-found"))
+            vcount += 1
         else:
             key = (r["name"], str(o.get("input"))[:200])
             if key in reported:
@@ -202,6 +233,7 @@ def finish(pid, tier, seed, t0, results, lemma_results, standin_results, known):
             functions_under_contract=per_function,
             lemmas=[dict(lemma=l["lemma"], discharged=l["discharged"], ms=l["ms"]) for l in lemma_results],
             bounded=bounded_out,
+            static_checks=static_out,
             known_findings=[dict(id=k.get("id"), what=k.get("what")) for k in {id(k): k for k, _ in known_hits}.values()],
             undecided=undecided[:40],
             samples=samples[:4] or [{"note": "no VC sample (stand-ins only)"}],
